@@ -94,4 +94,25 @@ func init() {
 		Explanation: "reconnect",
 		NotCovered: "values",
 	})
+
+	registerRule(&RuleDef{ID: "V1", Min: 3, Doc: "one matching event per successful cache mutation", Run: ruleV})
+	registerRule(&RuleDef{ID: "V2", Min: 7, Doc: "emitted by V1", Run: func(p *Program, r *Reporter) {}})
+	registerRule(&RuleDef{ID: "V3", Min: 4, Doc: "emitted by V1", Run: func(p *Program, r *Reporter) {}})
+	registerProp(&PropDef{
+		ID:    "C14",
+		Rules: []string{"V1", "V2", "V3"},
+		Explanation: "events",
+		NotCovered: "values",
+	})
+
+	registerRule(&RuleDef{ID: "N-COVER", Min: 4, Doc: "every value-carrying member of Operation is expanded", Run: ruleN})
+	registerRule(&RuleDef{ID: "N-PHASE", Min: 1, Doc: "emitted by N-COVER", Run: func(p *Program, r *Reporter) {}})
+	registerRule(&RuleDef{ID: "N-POS", Min: 4, Doc: "emitted by N-COVER", Run: func(p *Program, r *Reporter) {}})
+	registerRule(&RuleDef{ID: "G-GATE", Min: 6, Doc: "emitted by N-COVER", Run: func(p *Program, r *Reporter) {}})
+	registerProp(&PropDef{
+		ID:    "C15",
+		Rules: []string{"N-COVER", "N-PHASE", "N-POS", "G-GATE"},
+		Explanation: "named uuids",
+		NotCovered: "values",
+	})
 }
